@@ -20,6 +20,7 @@ import (
 	"github.com/ethereum/go-ethereum/core/vm"
 	"github.com/ethereum/go-ethereum/crypto"
 	"github.com/ethereum/go-ethereum/internal/verifx/evmx"
+	"github.com/ethereum/go-ethereum/params"
 	"github.com/holiman/uint256"
 	"pgregory.net/rapid"
 	ep "verif.local/kit/evmprog"
@@ -523,6 +524,11 @@ type c28Stats struct {
 	open           []bool
 	fundedCreates  int
 	fundedAnalysed int
+	// instructions that may be charged state gas (EIP-8037), and bytes returned by
+	// creation frames (code deposits): these charges can come back later
+	stateOps     int
+	depositBytes int
+	ftyp         []byte
 }
 
 func (s *c28Stats) hooks() *tracing.Hooks {
@@ -537,6 +543,14 @@ func (s *c28Stats) hooks() *tracing.Hooks {
 			}
 			if op == ep.GAS {
 				s.gasOp = true
+			}
+			switch op {
+			case ep.CREATE, ep.CREATE2, ep.SSTORE, ep.SELFDESTRUCT:
+				s.stateOps++
+			case ep.CALL, ep.CALLCODE:
+				if sd := scope.StackData(); len(sd) >= 3 && !sd[len(sd)-3].IsZero() {
+					s.stateOps++
+				}
 			}
 			if n := len(s.open); (op == ep.JUMP || op == ep.JUMPI) && n > 0 && s.open[n-1] {
 				s.open[n-1] = false
@@ -553,10 +567,17 @@ func (s *c28Stats) hooks() *tracing.Hooks {
 				s.fundedCreates++
 			}
 			s.open = append(s.open, onFunded)
+			s.ftyp = append(s.ftyp, typ)
 		},
 		OnExit: func(depth int, output []byte, gasUsed uint64, err error, reverted bool) {
 			if n := len(s.open); n > 0 {
 				s.open = s.open[:n-1]
+			}
+			if n := len(s.ftyp); n > 0 {
+				if isCreateType(s.ftyp[n-1]) {
+					s.depositBytes += len(output)
+				}
+				s.ftyp = s.ftyp[:n-1]
 			}
 			if err != nil && !errors.Is(err, vm.ErrExecutionReverted) {
 				switch evmx.ErrClass(err) {
@@ -778,6 +799,16 @@ func (cc *c28Case) nestable(i int) bool {
 	}
 	if st.gasOp || st.gasFail || cs.gas-b.gasE > cs.gas/4 || cs.resv != 0 {
 		return false
+	}
+	// From Amsterdam on state gas is taken out of the execution gas when the reservoir is
+	// empty and handed back when the frame that paid it fails or the change is undone: the
+	// gas in use at some moment may exceed the final consumption by the sum of all such
+	// charges (each at most one account creation; code deposits by the byte).
+	if cs.fork >= ep.Amsterdam {
+		transient := uint64(st.stateOps)*params.AccountCreationSize*params.CostPerStateByte + uint64(st.depositBytes)*params.CostPerStateByte
+		if cs.gas-b.gasE+transient > cs.gas/4 {
+			return false
+		}
 	}
 	// what one relay frame spends: < 3000 for its instructions and the (cold) call, plus
 	// copying calldata in and return data out of w words each and the memory for them
